@@ -169,18 +169,28 @@ CHECKS = {
         'text': 'Static: in the call-graph closure of each seeded builder every random draw uses the builder\'s own rng field and no other entropy, '
                 'clock, environment source or RandomState iteration is reachable; seed() installs seed_from_u64(seed); every field setter writes '
                 'exactly its own field; the 2-/3-way distinct-index idioms are proved pairwise distinct and in range by a zone-domain abstract '
-                'interpretation (all paths), Pauli-gadget qubits are drawn without replacement; hidden-shift, Pauli-gadget and graph-state structure rules.',
+                'interpretation (all paths), Pauli-gadget qubits are drawn without replacement; hidden-shift, Pauli-gadget and graph-state structure rules; for every even denominator 4..=64 the Pauli-gadget numerator computation (guard, ranged draw, skip chain) is evaluated on an integer interpreter over every value the draw can return and never yields d/2, d, 3d/2.',
         'note': TB + 'Not decided: the hidden-shift promise, unit norm, numerator arithmetic, gate-kind probabilities.',
         'technique': 'call-graph reachability with receiver-rooted determinism rule, zone-domain abstract interpretation, structural pairing rules',
     },
     'C20': {
         'text': 'Static: on every path to return detection_webs writes back the inputs/outputs it saved before the first setter, each to its own '
                 'setter; the node order handed to the positional [I|N] block construction has the boundary vertices first whatever their ids (recognised '
-                'idioms: stable sort keyed by vertex_type != B, or a first segment filtered on vertex_type == B) and that order is the one used for the adjacency matrix.',
+                'idioms: stable sort keyed by vertex_type != B, or a first segment filtered on vertex_type == B) and that order is the one used for the adjacency matrix; '
+                'the column offset pw() recomputes from g.inputs()/g.outputs() is the width of the identity block (same vector, unmodified, inputs emptied, nothing changes them before pw runs) and pw looks nodes up as index_map[col - n_outs] over all columns; '
+                'the matrix whose null space is taken has the block structure [[I_outs;0 | N],[I_2outs | 0]] with every vstack/hstack dimension-consistent (symbolic shapes); pw\'s colour and Pauli tables; every basis vector becomes one returned web.',
         'note': TB + 'D2 is a necessary condition of numbering independence only. Not decided: validity, independence, completeness of the webs.',
-        'technique': 'save/clobber/restore pairing with provenance on all paths; must-fact rule at the point where the node order is built',
+        'technique': 'save/clobber/restore pairing with provenance on all paths; must-fact rule at the point where the node order is built; data-flow agreement of a positional offset between two functions; symbolic block-matrix shape evaluation; table extraction',
     },
 }
+
+# dependency clauses (Check.include): rules of another property evaluated as part of this one, because a violation there breaks this property too
+DEPENDS = {
+    'C02': 'C01 (D1 guards, D2 inline matchers)', 'C03': 'C01 (D1 guards, D2 inline matchers)', 'C04': 'C01 (D3 effect schemas, D4 edge discipline)',
+    'C05': 'C01 (D1, D2) and C07', 'C06': 'C05 (with its dependencies) and C11', 'C07': 'C16', 'C08': 'C07 (with C16)', 'C12': 'C01 (D1, D2)', 'C13': 'C09',
+}
+for _k, _v in DEPENDS.items():
+    CHECKS[_k]['text'] += ' Dependency clause: the rules of %s are evaluated as part of this check (violations are reported with a dep- key prefix).' % _v
 
 _PENDING = 'check under construction in this round (rules designed in DESIGN.md section 5; not yet registered)'
 NOT_APPLICABLE = {('C%02d' % i): _PENDING for i in range(1, 21) if ('C%02d' % i) not in CHECKS}
